@@ -49,7 +49,7 @@ theorem blocks_refine_spec : C06_full := by
     | some kk => rfl
     | none =>
     simp only []
-    have hfr : (initSt T).frames = [[]] := rfl
+    have hfr : (initSt T).frames = Vars.init := rfl
     rw [hfr] at hc
     rw [← hc]
     cases evalImpl env ctx fuel none false false 0 T.ae T.layout (initSt T) with
@@ -107,7 +107,7 @@ theorem super_goes_one_up (env : Env) (ctx : Cfg) (henv : EnvOK env)
 
 example : WF (defs exEnv [0, 1, 2]) := WF_defs exEnv (by decide) [0, 1, 2]
 example : Good (defs exEnv [0, 1, 2]) (some 0) true 0
-    { blocks := defs exEnv [0, 1, 2], depth := fun _ => 0, loaded := [2, 1], frames := [[]] } :=
+    { blocks := defs exEnv [0, 1, 2], depth := fun _ => 0, loaded := [2, 1], frames := Vars.init } :=
   ⟨rfl, by intro n hn; cases hn; exact ⟨rfl, by decide⟩, fun _ _ _ => rfl⟩
 example : defs exEnv [0, 1, 2] 0 = [[.text "<c0>", .super], [.text "<r0>", .callBlock 1]] := rfl
 
@@ -144,14 +144,14 @@ theorem render_block_most_derived (env : Env) (cfg : Cfg) (henv : EnvOK env) (fu
 theorem render_block_on_fresh_state (env : Env) (cfg : Cfg) (henv : EnvOK env) (fuel main n : Nat)
     (T : Template) (hT : env[main]? = some T) (hL : T.loadErr = none) :
     blockOnFreshState env cfg fuel main n =
-      blockResult (specBlock (specAll env { cfg with rootCtx := [] } fuel) (defs env [main]) false 0 T.ae n []) := by
-  have hst := initChainSt env main T hT { initSt T with frames := [] }
-  have hg : Good (defs env [main]) none true 0 { initSt T with frames := [] } :=
+      blockResult (specBlock (specAll env { cfg with rootCtx := [] } fuel) (defs env [main]) false 0 T.ae n Vars.empty) := by
+  have hst := initChainSt env main T hT { initSt T with frames := Vars.empty }
+  have hg : Good (defs env [main]) none true 0 { initSt T with frames := Vars.empty } :=
     ⟨hst.blocks, (by intro k hk; cases hk), fun _ m _ => hst.depth m⟩
   have hc := callBlock_sim (hyp_all env { cfg with rootCtx := [] } henv fuel) _ (WF_defs env henv [main]) none 0 n
     false 0 T.ae _ hg (by intro k hk; cases hk)
   simp only [blockOnFreshState, hT, hL, hc]
-  cases specBlock (specAll env { cfg with rootCtx := [] } fuel) (defs env [main]) false 0 T.ae n [] with
+  cases specBlock (specAll env { cfg with rootCtx := [] } fuel) (defs env [main]) false 0 T.ae n Vars.empty with
   | error e => rfl
   | ok r => rfl
 
@@ -231,9 +231,9 @@ theorem rendering_terminates (env : Env) (ctx : Cfg) (henv : EnvOK env) (main fu
   cases hT : env[main]? with
   | none => intro e he; cases he; simp
   | some T =>
-    have hl : 0 + ([[]] : List Frame).length ≤ LIMIT := by decide
-    have := (term_all env ctx fuel).chain [main] false 0 T.ae T.layout [[]] (by simp) (by simp) (by simp) hl
-      (by simpa [renderFuel] using hfuel)
+    have hl : 0 + Vars.init.length ≤ LIMIT := by decide
+    have := (term_all env ctx fuel).chain [main] false 0 T.ae T.layout Vars.init (by simp) (by simp) (by simp) hl
+      (by have : Vars.init.length = 1 := rfl; simpa [renderFuel, this] using hfuel)
     intro e he
     simp only [] at he
     cases hL : T.loadErr with
@@ -241,7 +241,7 @@ theorem rendering_terminates (env : Env) (ctx : Cfg) (henv : EnvOK env) (main fu
     | none =>
     rw [hL] at he
     simp only [] at he
-    cases hr : (specAll env ctx fuel).chain [main] false 0 T.ae T.layout [[]] with
+    cases hr : (specAll env ctx fuel).chain [main] false 0 T.ae T.layout Vars.init with
     | error e' => rw [hr] at he; cases he; exact this.1 _ hr
     | ok r => rw [hr] at he; cases he
 
@@ -260,7 +260,7 @@ theorem cycle_is_detected_error (env : Env) (ctx : Cfg) (henv : EnvOK env)
   have hT : env[main]? = some env[main] := List.getElem?_eq_getElem hmain
   rw [hT]
   simp only [hload _ (List.getElem_mem hmain)]
-  have := cycle_detected_spec env ctx hall hload env.length fuel [main] false 0 env[main].ae env[main].layout [[]]
+  have := cycle_detected_spec env ctx hall hload env.length fuel [main] false 0 env[main].ae env[main].layout Vars.init
     (by simp) (by simp) (by simp) (by simp) hfuel (hall _ (List.getElem_mem hmain))
   rcases this with h | h <;> simp [h]
 
@@ -284,7 +284,7 @@ theorem include_cycle_errors (env : Env) (ctx : Cfg) (henv : EnvOK env)
     (renderFuel env ≤ fuel →
       ∃ j, render env ctx fuel main = .error (List.replicate j Kind.badInclude ++ [.invalidOperation])) := by
   have hT : env[main]? = some env[main] := List.getElem?_eq_getElem hmain
-  obtain ⟨e, he, hie⟩ := include_cycle_spec env ctx hall hload fuel main hmain _ hT false 0 env[main].ae [[]]
+  obtain ⟨e, he, hie⟩ := include_cycle_spec env ctx hall hload fuel main hmain _ hT false 0 env[main].ae Vars.init
   have hr : render env ctx fuel main = .error e := by
     rw [blocks_refine_spec env ctx fuel main henv]
     unfold specRender
@@ -341,7 +341,10 @@ example : render [ { layout := [.text "<a>", .incl [7, 8] true, .text "<z>"], bl
     rendered as a chain of its own (fresh block table, empty loaded set) on the includer's frames
     (= with the includer's current variables) at `INCLUDE_RECURSION_COST` more depth (an error
     when that exceeds the recursion limit); afterwards the includer's block stacks, cursors and
-    loaded set are back; an error inside it is wrapped in `BadInclude` — never swallowed. -/
+    loaded set are back; an error inside it is wrapped in `BadInclude` — never swallowed.  The
+    closure of the includer's frame is detached while the included template runs (its assignments
+    do not reach the includer's macros, its own macros get a closure of their own) and attached
+    again afterwards. -/
 theorem include_first_existing (env : Env) (rec : Rec) (cur : Option Nat) (disc ign : Bool) (outer : Nat)
     (missing more : List Nat) (t : Nat) (T : Template)
     (hmiss : ∀ m ∈ missing, env[m]? = none) (hT : env[t]? = some T) (hL : T.loadErr = none) (st : St) :
@@ -349,11 +352,12 @@ theorem include_first_existing (env : Env) (rec : Rec) (cur : Option Nat) (disc 
       if outer + INCLUDE_COST + st.frames.length > LIMIT then .error [.invalidOperation]
       else
         match rec cur disc false (outer + INCLUDE_COST) T.ae T.layout
-            { st with blocks := prepare T.blocks, depth := fun _ => 0, loaded := [] } with
+            { st with blocks := prepare T.blocks, depth := fun _ => 0, loaded := [],
+                      frames := st.frames.setTopClosure none } with
         | .error e => .error (.badInclude :: e)
         | .ok (o, st') =>
           .ok (o, { blocks := st.blocks, depth := st.depth, loaded := st.loaded,
-                    frames := st'.frames.take st.frames.length }) :=
+                    frames := (st'.frames.take st.frames.length).setTopClosure st.frames.topClosure }) :=
   performInclude_first env rec cur disc ign outer missing more t T hmiss hT hL false st
 
 /-- the auto-escape mode across template boundaries: an included template runs in the mode its
@@ -419,7 +423,7 @@ example : render incEnv c0 10 0 = .ok ["<x:", "L", ">"] := by decide +kernel
 theorem import_exports_toplevel (env : Env) (ctx : Cfg) (f : Nat) (cur : Option Nat) (d0 e0 : Bool)
     (outer : Nat) (ae : AE) (parent : Option (List Item)) (t : Nat) (T : Template) (hT : env[t]? = some T)
     (hL : T.loadErr = none) (hs : T.layout.all Item.isAssign = true) (rest : List Item) (st : St)
-    (hd : outer + INCLUDE_COST + (st.frames.length + 1) ≤ LIMIT) :
+    (hwf : st.frames.WF) (hd : outer + INCLUDE_COST + (st.frames.length + 1) ≤ LIMIT) :
     (∀ v, stepItems ⟨env, ctx, cur, d0, e0, outer, ae⟩ (evalImpl env ctx (f + 1)) parent (.importAs t v :: rest) st =
         stepItems ⟨env, ctx, cur, d0, e0, outer, ae⟩ (evalImpl env ctx (f + 1)) parent rest
           { st with frames := store st.frames v (.module (dedupKeys (assigns T.layout []))) }) ∧
@@ -429,8 +433,8 @@ theorem import_exports_toplevel (env : Env) (ctx : Cfg) (f : Nat) (cur : Option 
           { st with frames := store st.frames alias ((lookupVal name (assigns T.layout [])).getD .undef) }) ∧
     (∀ name, T.layout.all (fun it => !assignsVar name it) = true →
         lookupVal name (assigns T.layout []) = none) := by
-  refine ⟨fun v => importAs_step env ctx f cur d0 e0 outer ae parent t v T hT hL hs rest st hd,
-    fun name alias => fromImport_step env ctx f cur d0 e0 outer ae parent t name alias T hT hL hs rest st hd, ?_⟩
+  refine ⟨fun v => importAs_step env ctx f cur d0 e0 outer ae parent t v T hT hL hs rest st hwf hd,
+    fun name alias => fromImport_step env ctx f cur d0 e0 outer ae parent t name alias T hT hL hs rest st hwf hd, ?_⟩
   intro name h
   rw [lookup_assigns_other name T.layout [] h]
   rfl
@@ -446,14 +450,14 @@ theorem import_of_extending_template (env : Env) (ctx : Cfg) (henv : EnvOK env) 
     (hT : env[t]? = some T) (hP : env[p]? = some P) (hLT : T.loadErr = none) (hLP : P.loadErr = none)
     (hl : T.layout = pre ++ .extends true p :: post)
     (hpre : pre.all Item.isAssign = true) (hpost : post.all Item.isAssign = true)
-    (hpl : P.layout.all Item.isAssign = true) (rest : List Item) (st : St)
+    (hpl : P.layout.all Item.isAssign = true) (rest : List Item) (st : St) (hwf : st.frames.WF)
     (hd : outer + INCLUDE_COST + (st.frames.length + 1) ≤ LIMIT) :
     stepItems ⟨env, ctx, cur, d0, e0, outer, ae⟩ (evalImpl env ctx (f + 2)) parent (.importAs t v :: rest) st =
       stepItems ⟨env, ctx, cur, d0, e0, outer, ae⟩ (evalImpl env ctx (f + 2)) parent rest
         { st with frames := (store st.frames v
             (Val.module (dedupKeys (assigns P.layout (assigns post (assigns pre [])))))) } :=
   importAs_extending_step env ctx henv f cur d0 e0 outer ae parent t p v T P pre post hT hP hLT hLP hl hpre hpost hpl
-    rest st hd
+    rest st hwf hd
 
 example : render
     [ { layout := [.importAs 1 8, .emitAttr 8 2, .emitAttr 8 3, .emitAttr 8 4], blocks := [] },
@@ -472,5 +476,79 @@ example : render [ { layout := [.fromImport 1 3 7, .text "[", .emitVar 7, .text 
     { rootCtx := [(3, .str "ctx")] } 10 0 = .ok ["[", "]"] := by decide +kernel
 example : render [ { layout := [.fromImport 1 4 6, .callVar 6], blocks := [] }, modT ]
     { rootCtx := [(3, .str "ctx")] } 10 0 = .ok ["<mac>"] := by decide +kernel
+
+/-- Macro closures across an include (`Context::take_closure` … `reset_closure` in
+    `perform_include`).  Every frame has a closure slot; a macro with free variables captures the
+    closure of the frame that defines it (`Enclose`, `GetClosure`), an assignment in a frame is
+    written through to that frame's closure, and a macro body looks its free variables up in the
+    closure it captured.  An include runs the included file in the includer's frame — so the
+    two files would share one closure — and the engine keeps them apart by detaching the frame's
+    closure for the duration.  For every environment of the proven fragment, every amount of
+    fuel and every successful include (`hwf`, `hcl`: the state is well formed — every frame has
+    its slot and the slot on top points into the closure heap — as in every state `render`
+    reaches):
+
+    1. whatever the included file (and everything it includes, imports or extends) assigned,
+       every closure that existed before the include — the includer's own and those captured by
+       any macro defined so far — holds what it held before: the includer's macros do not
+       observe the included file's assignments;
+    2. the includer's closure is attached again afterwards (the part C05 states as "state
+       restored after the construct");
+    3. vice versa: the closures the included file opened for its own macros (the heap slots that
+       did not exist before) are not reached by anything the includer assigns or encloses
+       afterwards. -/
+theorem include_keeps_closures_apart (env : Env) (ctx : Cfg) (fuel : Nat) (henv : EnvOK env)
+    (cur : Option Nat) (disc ign : Bool) (outer : Nat) (names : List Nat) (tried : Bool)
+    (st st' : St) (o : List String) (hwf : st.frames.WF)
+    (hcl : ∀ c, st.frames.topClosure = some c → c < st.frames.heap.length)
+    (h : performInclude env (evalImpl env ctx fuel) cur disc ign outer names tried st = .ok (o, st')) :
+    (∀ c w, c < st.frames.heap.length →
+        lookupVal w (st'.frames.heap[c]?.getD []) = lookupVal w (st.frames.heap[c]?.getD [])) ∧
+    st'.frames.topClosure = st.frames.topClosure ∧
+    (∀ i, st.frames.heap.length ≤ i → i < st'.frames.heap.length →
+        (∀ v x, (store st'.frames v x).heap[i]? = st'.frames.heap[i]?) ∧
+        (∀ w, (enclose ctx.rootCtx st'.frames w).heap[i]? = st'.frames.heap[i]?)) := by
+  rw [include_sim (hyp_all env ctx henv fuel) henv] at h
+  cases hs : specInclude env (specAll env ctx fuel) disc ign outer names tried st.frames with
+  | error e => rw [hs] at h; cases h
+  | ok q =>
+    obtain ⟨o', b⟩ := q
+    rw [hs] at h
+    obtain ⟨hold, htop, _, _, _⟩ := specInclude_apart env ctx fuel disc ign outer names tried st.frames b o' hwf hs
+    simp only [liftS] at h
+    cases h
+    refine ⟨fun c w hc => by rw [hold c hc], htop, ?_⟩
+    intro i hi hlt
+    have hne : ∀ c, b.topClosure = some c → i ≠ c := by
+      intro c hc
+      rw [htop] at hc
+      have := hcl c hc
+      omega
+    exact ⟨fun v x => store_heap_other b v x i hne, fun w => enclose_heap_other ctx.rootCtx b w i hlt hne⟩
+
+/-- the hypotheses hold at the start of every render, and the conclusion is not vacuous: -/
+example : (initSt { layout := [], blocks := [] }).frames.WF ∧
+    ∀ c, (initSt { layout := [], blocks := [] }).frames.topClosure = some c →
+      c < (initSt { layout := [], blocks := [] }).frames.heap.length := by
+  refine ⟨rfl, ?_⟩
+  intro c hc; cases hc
+
+/-- the included file reassigns `v1`: the includer's macro `v5` (free variable `v1`) still sees
+    the includer's value, although the includer itself now sees the new one -/
+example : render [ { layout := [.setVar 1 "a", .defMacroV 5 1, .incl [1] false, .callVar 5, .emitVar 1], blocks := [] },
+                   { layout := [.setVar 1 "b"], blocks := [] } ] c0 10 0
+    = .ok ["<m5:a>", "b"] := by decide +kernel
+/-- vice versa: the included file's macro `v6` keeps seeing the included file's value when the
+    includer reassigns `v1` after the include -/
+example : render [ { layout := [.incl [1] false, .setVar 1 "c", .callVar 6, .emitVar 1], blocks := [] },
+                   { layout := [.setVar 1 "b", .defMacroV 6 1], blocks := [] } ] c0 10 0
+    = .ok ["<m6:b>", "c"] := by decide +kernel
+/-- both at once, with calls on both sides of the tag: inside the included file each macro sees
+    its own file's `v1`; after the include the includer's closure is attached again, so its own
+    later assignment does reach its own macro -/
+example : render [ { layout := [.setVar 1 "a", .defMacroV 5 1, .incl [1] false, .setVar 1 "c", .callVar 5, .callVar 6],
+                     blocks := [] },
+                   { layout := [.setVar 1 "b", .defMacroV 6 1, .callVar 5, .callVar 6], blocks := [] } ] c0 10 0
+    = .ok ["<m5:a>", "<m6:b>", "<m5:c>", "<m6:b>"] := by decide +kernel
 
 end MJ.C06
